@@ -18,6 +18,9 @@ def corpus():
         "run prop=C09 mode=constant rate=2/200ms intervalms=200 dur=2400 conc=10 body=1 sloweval=2:120",   # one slow tick must not speed up the rest
         "run prop=C09 mode=constant rate=1/1us dur=1200 conc=256 body=0",
         "run prop=C09 mode=constant rate=40/1s dist=regular intervalms=100 dur=700 conc=10",
+        # a pool that takes tens of milliseconds to start: the tick grid is anchored at the first evaluation, not before it
+        "run prop=C09 mode=constant rate=1/100ms intervalms=100 dur=600 conc=40000 body=0",
+        "run prop=C09 mode=constant rate=1/50ms intervalms=50 dur=400 conc=80000 body=0",
     ]
 
 
